@@ -172,7 +172,7 @@ PROPS['C14'] = {
     },
     'functions': ['generic_hex', 'hex_encode', 'hex_encode_fallback', 'LowerHex/UpperHex for GenericArray<u8,N>'],
     'bounds': 'K end to end: N <= 17 (thorough 33), bytes/precision/case symbolic. Sink capacity 96 bytes.',
-    'outside': ['feature faster-hex on: the SIMD kernels (inline asm/intrinsics) cannot be encoded; only the crate-side preconditions are claimed (M)', 'N >= 1023 end to end (the two larger strategies): M decides their index arithmetic per strategy', 'width/fill flags (ignored by the implementation)'],
+    'outside': ['feature faster-hex on: the SIMD kernels (inline asm/intrinsics) cannot be encoded; only the crate-side preconditions are claimed (M)', 'N >= 1023 end to end (the two larger strategies): M decides their index arithmetic per strategy'],
     'assumptions': ['precision <= 2N+2'],
 }
 
@@ -297,7 +297,7 @@ PROPS['C04']['functions'] += ['Clone for GenericArray (self.map(Clone::clone))',
 PROPS['C14']['mir'] = {'quick': [mrun(['hex.small', 'hex.medium', 'hex.large'])]}
 PROPS['C14']['technique'] = 'bounded model checking with Kani/CBMC end to end (N <= 17, symbolic bytes / precision / case) + symbolic execution of rustc MIR with z3 for the index arithmetic of all three strategies (0..=15, 16..=1024, 1025..=4200 with the chunk loop unrolled)'
 PROPS['C14']['bounds'] += ' M: for every N in 0..=4200 and every precision (None or any usize): unreachable_unchecked unreachable, every unchecked index in range, the encoder\'s size precondition holds at both call sites, exactly min(precision, 2N) digits emitted and only digits the encoder produced, input bytes consumed in index order; the encoder is a stub with its contract.'
-PROPS['C14']['outside'] = ['feature faster-hex on: the SIMD kernels (inline asm/intrinsics) cannot be encoded; the crate-side preconditions (which make unwrap_unchecked sound) are what M discharges', 'N > 4200 (chunk-loop unrolling bound)', 'width/fill flags (ignored by the implementation)']
+PROPS['C14']['outside'] = ['feature faster-hex on: the SIMD kernels (inline asm/intrinsics) cannot be encoded; the crate-side preconditions (which make unwrap_unchecked sound) are what M discharges', 'N > 4200 (chunk-loop unrolling bound)']
 PROPS['C14']['assumptions'] += ['M stub: hex_encode / hex_encode_fallback write the digits of src into dst[..2*src.len()] provided dst.len() >= 2*src.len() (the fallback\'s behaviour is checked end to end by K for N <= 17)']
 
 PROPS['C06']['mir']['validate'] = True
@@ -358,3 +358,5 @@ for pid in ('C02', 'C10', 'C11'):
     PROPS[pid]['bounds'] += ' M (mutprov): every `&mut`-to-`&mut` view function of the crate, all N: the returned pointer is derived from the argument through mutable borrows / raw pointers only (a step through a shared borrow is reported; confirmed by Miri with Tree Borrows on a driver that writes through every view).'
     PROPS[pid].setdefault('outside', [])
     PROPS[pid]['outside'] = list(PROPS[pid]['outside']) + ['aliasing-model rules beyond "no write permission through a shared borrow" (Stacked Borrows rejects the unchanged chunks_from_slice_mut; Tree Borrows accepts the unchanged crate)']
+
+PROPS['C14']['bounds'] += ' M also: "and nothing else" - a width / fill / alignment flag adds no characters (Formatter::pad is modelled with a symbolic width).'
